@@ -112,3 +112,18 @@ pub trait GenericTraitRef2<K: 'static, V: 'static> {
 pub trait GenericTraitBorrow<K: 'static> {
     fn get(&self, k: K, k2: K) -> K;
 }
+
+// const parameter declared BEFORE a type parameter (allowed since Rust 1.59): parameter list and
+// argument list (`Trait<N, T>`, `dyn Trait<N, T>`) of every generated impl must keep the declared order
+#[entrait(unimock = false)]
+pub trait ConstFirst<const N: usize, T: Copy> {
+    fn fill(&self, value: T, offset: usize) -> ([T; N], usize);
+}
+#[entrait(delegate_by = ref, unimock = false)]
+pub trait ConstFirstRef<const N: usize, T: Copy + 'static> {
+    fn fill_ref(&self, value: T, offset: usize) -> ([T; N], usize);
+}
+#[entrait(delegate_by = Borrow, unimock = false)]
+pub trait ConstFirstBorrow<'a, const N: usize, T: Copy + 'static, const M: usize, U: 'static> {
+    fn fill_bor(&self, value: &'a T, other: [U; M]) -> ([T; N], usize);
+}
